@@ -103,6 +103,16 @@ def build_cfgs(case, workdir):
     a["perf"]["parallel"]["enabled"] = bool(sw["parallel"]) if "parallel" not in case["closed"] or sub.get("perf") == "omitted" else a["perf"]["parallel"].get("enabled", bool(sw["parallel"]))
     a["t2"]["quality"]["enabled"] = bool(sw["quality"])
     a["t2"]["hybrid"]["enabled"] = bool(sw["hybrid"])
+    if case.get("absent"):
+        where = {"perf": ("perf", "enabled"), "graph": ("graph", "enabled"), "reflection": ("t3", "allow_reflection"), "scheduler": ("scheduler", "enabled"),
+                 "quality": ("t2", "quality", "enabled"), "hybrid": ("t2", "hybrid", "enabled")}
+        for f, path in where.items():
+            if not sw[f]:
+                for cfg in (a, base):
+                    node = cfg
+                    for k in path[:-1]:
+                        node = node.get(k) or {}
+                    node.pop(path[-1], None)
     return a, base
 
 
@@ -270,7 +280,8 @@ def check(run) -> None:
             continue
         if not q and not (n_open <= 3 or i % 4 == 0):
             continue
-        cases.append(dict(c, workdir=run.workdir))
+        # in every other case a closed gate is closed by ABSENCE of its switch (the default) instead of an explicit false
+        cases.append(dict(c, workdir=run.workdir, absent=len(cases) % 2 == 1))
     run.extra["cases_in_model"] = len(res.emitted)
     outs = pmap(run_pair, cases, chunk=2)
     for c, fails in zip(cases, outs):
